@@ -31,19 +31,19 @@ type vStep struct {
 }
 
 type vTxObs struct {
-	Idx     int
-	Height  int64
-	Gap     int
-	Signer  *vActor
-	Msgs    []sdk.Msg
-	Res     abci.ResponseDeliverTx
-	OK      bool
-	Pre     *vSnap
-	Post    *vSnap
+	Idx    int
+	Height int64
+	Gap    int
+	Signer *vActor
+	Msgs   []sdk.Msg
+	Res    abci.ResponseDeliverTx
+	OK     bool
+	Pre    *vSnap
+	Post   *vSnap
 	// PreFresh: Pre was taken after crossing a block boundary (so it is an
 	// observation of its own, not the previous tx's Post).
 	PreFresh bool
-	Note    string
+	Note     string
 	// RightSigner: the key used to sign belongs to the single address that
 	// every message names as its signer.
 	RightSigner bool
